@@ -148,8 +148,6 @@ def get_service_status(status) -> str:
 
 
 def get_extended_status(msg, start) -> Optional[str]:
-    stream = BytesIO(msg[start:])
-    status = USINT.decode(stream)
     # send_rr_data
     # 42 General Status
     # 43 Size of additional status
@@ -159,19 +157,21 @@ def get_extended_status(msg, start) -> Optional[str]:
     # 48 General Status
     # 49 Size of additional status
     # 50..n additional status
-    extended_status_size = USINT.decode(stream) * 2
-    extended_status = 0
-    if extended_status_size != 0:
-        # There is an additional status
-        if extended_status_size == 1:
-            extended_status = USINT.decode(stream)
-        elif extended_status_size == 2:
-            extended_status = UINT.decode(stream)
-        elif extended_status_size == 4:
-            extended_status = UDINT.decode(stream)
-        else:
-            return "[ERROR] Extended Status Size Unknown"
     try:
+        stream = BytesIO(msg[start:])
+        status = USINT.decode(stream)
+        extended_status_size = USINT.decode(stream) * 2
+        extended_status = 0
+        if extended_status_size != 0:
+            # There is an additional status
+            if extended_status_size == 1:
+                extended_status = USINT.decode(stream)
+            elif extended_status_size == 2:
+                extended_status = UINT.decode(stream)
+            elif extended_status_size == 4:
+                extended_status = UDINT.decode(stream)
+            else:
+                return "[ERROR] Extended Status Size Unknown"
         return f"{EXTEND_CODES[status][extended_status]}  ({status:0>2x}, {extended_status:0>2x})"
     except Exception:
         return None
